@@ -112,6 +112,7 @@ type Node struct {
 	CustomT  string     `json:"customT,omitempty"` // custom: "string" | "int"
 	CustomFn string     `json:"customFn,omitempty"`
 	PreFn    string     `json:"preFn,omitempty"`   // preprocess behaviour: ok | error | split
+	Via      string     `json:"via,omitempty"`     // struct: how the schema object is assembled: "" (literal) | merge | extend | omit | pick
 	TypeRot  int        `json:"typeRot,omitempty"` // shared struct nodes: rotate the destination type's field order at this use
 	ShareID  int        `json:"share,omitempty"`   // nodes with the same non-zero ShareID are built as ONE schema object
 	ID       int        `json:"id"`                // preorder number, set by Number()
